@@ -35,7 +35,15 @@ const (
 	FaultErr      = "err-generic"
 	FaultNotFound = "err-notfound"
 	FaultCancel   = "ctx-cancel"
+	// FaultLostAck: the operation is applied to the back end, but the caller is told it failed (a write whose
+	// acknowledgement was lost); for reads it equals err-generic.
+	FaultLostAck = "err-after-apply"
+	// FaultCrash: this and every later operation fails and nothing more is applied (the process lost its storage /
+	// died at this point); cleared by ClearFaults, which models the restart over the durable state.
+	FaultCrash = "crash"
 )
+
+var errApplyFirst = errors.New("simstore: apply, then fail")
 
 var ErrInjected = errors.New("simstore: injected storage failure")
 
@@ -50,6 +58,8 @@ type Store struct {
 
 	// fault plan: map from absolute call sequence number to fault kind
 	Faults map[int]string
+	// crashed: set by a crash fault; every later call fails until ClearFaults
+	crashed bool
 	// Cancel, if set, is invoked by a ctx-cancel fault (cancels the context the harness handed to the library)
 	Cancel func()
 	Fired  map[string]int
@@ -83,7 +93,7 @@ func (s *Store) NextSeq() int { return s.seq }
 // ArmAt arms a fault at the k-th call from now (0 = next call).
 func (s *Store) ArmAt(k int, kind string) { s.Faults[s.seq+k] = kind }
 
-func (s *Store) ClearFaults() { s.Faults = map[int]string{} }
+func (s *Store) ClearFaults() { s.Faults = map[int]string{}; s.crashed = false }
 
 func (s *Store) AddSecret(name string, b []byte) {
 	if len(b) >= 8 {
@@ -103,12 +113,29 @@ func (s *Store) begin(ctx context.Context, kind string, m proto.Message, id stri
 	s.seq++
 	s.R.Sched.Park("store."+kind, s, nil)
 	s.R.Count("ops.storage."+kind, 1)
-	if f, ok := s.Faults[c.Seq]; ok {
+	f, ok := s.Faults[c.Seq]
+	if s.crashed {
+		c.Fault, c.Err = "after-crash", ErrInjected.Error()
+		s.R.Count("probe.ops_refused_after_crash", 1)
+		s.Calls = append(s.Calls, c)
+		return nil, fmt.Errorf("%w (call %d %s %s after crash)", ErrInjected, c.Seq, kind, c.Type)
+	}
+	if ok {
 		c.Fault = f
 		s.Fired[f]++
 		s.R.Count("fault."+f, 1)
 		var err error
 		switch f {
+		case FaultCrash:
+			s.crashed = true
+			err = fmt.Errorf("%w (call %d %s %s: crash)", ErrInjected, c.Seq, kind, c.Type)
+		case FaultLostAck:
+			if kind == "store" || kind == "remove" {
+				c.Err = ErrInjected.Error()
+				s.Calls = append(s.Calls, c)
+				return &s.Calls[len(s.Calls)-1], errApplyFirst
+			}
+			err = fmt.Errorf("%w (call %d %s %s)", ErrInjected, c.Seq, kind, c.Type)
 		case FaultErr:
 			err = fmt.Errorf("%w (call %d %s %s)", ErrInjected, c.Seq, kind, c.Type)
 		case FaultNotFound:
@@ -140,6 +167,19 @@ func safeID(m nodeenrollment.MessageWithId) (id string) {
 
 func (s *Store) Store(ctx context.Context, m nodeenrollment.MessageWithId) error {
 	c, err := s.begin(ctx, "store", m, safeID(m))
+	if err == errApplyFirst {
+		if !nodeenrollment.IsNil(m) {
+			if b, e := proto.Marshal(m); e == nil {
+				c.Bytes = b
+				s.scan(m, b)
+			}
+		}
+		if e := s.Inner.Store(ctx, m); e != nil {
+			return e
+		}
+		s.R.Count("probe.write_applied_ack_lost", 1)
+		return fmt.Errorf("%w (call %d store %s: applied, acknowledgement lost)", ErrInjected, c.Seq, c.Type)
+	}
 	if err != nil {
 		return err
 	}
@@ -171,7 +211,14 @@ func (s *Store) Load(ctx context.Context, m nodeenrollment.MessageWithId) error 
 }
 
 func (s *Store) Remove(ctx context.Context, m nodeenrollment.MessageWithId) error {
-	_, err := s.begin(ctx, "remove", m, safeID(m))
+	c, err := s.begin(ctx, "remove", m, safeID(m))
+	if err == errApplyFirst {
+		if e := s.Inner.Remove(ctx, m); e != nil {
+			return e
+		}
+		s.R.Count("probe.write_applied_ack_lost", 1)
+		return fmt.Errorf("%w (call %d remove %s: applied, acknowledgement lost)", ErrInjected, c.Seq, c.Type)
+	}
 	if err != nil {
 		return err
 	}
